@@ -212,6 +212,8 @@ func genCmd(args []string) {
 		genC07(g)
 	case "C11":
 		genC11(g)
+	case "C12":
+		genC12(g)
 	default:
 		fmt.Fprintln(os.Stderr, "no generator for", *prop)
 		os.Exit(2)
